@@ -28,6 +28,15 @@ def poll (s : St) (op : Op) : St × Polled :=
   let (s2, o2) := step s1 op
   if o2.granted then (s2, .ready o2) else (s2, .pending)
 
+/-- `poll` during which another stage performs `e` while the waker is being registered, i.e. between the two attempts
+    (the window the second attempt exists for). -/
+def pollWith (s : St) (op e : Op) : St × Polled :=
+  let (s1, o1) := step s op
+  if o1.granted then (s1, .ready o1) else
+  let s1' := (step s1 e).1
+  let (s2, o2) := step s1' op
+  if o2.granted then (s2, .ready o2) else (s2, .pending)
+
 /-- Futures kept alive by tasks, one per async iterator at most (a future borrows its iterator mutably). -/
 structure ASt where
   st : St
